@@ -944,6 +944,13 @@ func (p *Policy) validURL(rawurl string) (string, bool) {
 			return "", false
 		}
 
+		// The normalised URL is what gets emitted. If it still begins or ends
+		// with (Unicode) space it would be trimmed, and so change, the next
+		// time it is sanitised; treat it like any other URL with whitespace.
+		if s := u.String(); s != strings.TrimSpace(s) {
+			return "", false
+		}
+
 		if u.Scheme != "" {
 			urlPolicies, ok := p.allowURLSchemes[u.Scheme]
 			if !ok {
